@@ -46,6 +46,9 @@ AuxOk(r) == r.has_aux =>     \* (a probe built without tiny-std's aux feature ha
             /\ r.aux.execfn = r.kaux.execfn
 
 \* ---- clocks: syscall reading, tiny-std reading (vDSO when found), syscall reading ----------
+\* The three readings are successive reads of ONE clock in one lane (Clock.tla, ReadMonotone: what a lane
+\* observes never decreases) taken through two mechanisms: if the vDSO function reads the same clock as the
+\* system call, its reading lies between the two system-call readings.
 Le(t, u) == t[1] < u[1] \/ (t[1] = u[1] /\ t[2] <= u[2])
 TsOk(t) == t[1] >= 0 /\ t[2] >= 0 /\ t[2] < 1000000000
 ClockOk3(c) == /\ Len(c) = 3 /\ \A i \in 1..3 : TsOk(c[i])
